@@ -42,7 +42,7 @@ def run(chk):
                 'A case is a source string.')
     S.standard(chk, c08.scopes(quick), INV, CLAUSES,
                're-parsing the serialised text must succeed with identical shape and identical text',
-               extra_sources=c08.extras(chk, quick), sources=ws_documents(chk, quick), runs='C')
+               extra_sources=c08.extras(chk, quick), sources=ws_documents(chk, quick), runs='C', simulate_words=[w for w in S.ST + c08.NOIGN])
     chk.assumptions += ['side conditions of C08 plus: no bare sizing prefix (\\left, \\big ...) - decided on the reference '
                         'token stream', 'shape = names, argument kinds and contents with adjacent text leaves merged']
 
